@@ -1,36 +1,75 @@
 /-
-Model of the dependency provider `/repo/app/dependency/provider.go` (property C10).
+Model of the dependency provider `/repo/app/dependency/provider.go` (property C10), of the injectors
+it can be given (`/repo/app/injector/map.go`, `multi.go`, `nil_injector.go`,
+`/repo/app/scope/datascope/injector.go`) and of `NewStaticProvider`.
 
-State = the five tables of `Provider` (`injectors` stay empty, see below), `callstack`, `keys`,
-`blocked`, `autoclean`, plus three ghost fields that make the behaviour observable:
-`nextId` (instances built by factories are fresh ids), `log` (every factory invocation `start n`
-and every stored result `done n i`) and `exhausted` (set only when the recursion fuel of `get`
-runs out; `Props/C10.fuel_sufficient` proves it is never set).
+State = the five tables of `Provider`, its `injectors`, `callstack`, `keys`, `blocked`, `autoclean`,
+plus three ghost fields that make the behaviour observable: `nextId` (instances built by factories
+are fresh ids), `log` (every factory invocation `start n` and every stored result `done n i`) and
+`exhausted` (set only when the recursion fuel of `get` runs out; `Props/C10.fuel_sufficient` proves
+it is never set).
+
+Names and struct tags are TEXT (`Name` = the list of character codes): `parseTag` is the string
+handling of `InjectTo` and of the injectors — an empty tag skips the field, exactly one leading `?`
+is stripped and makes the field optional, everything else is a literal map key.  `Get`, `Set`, … use
+their argument literally (the empty name and names starting with `?` are ordinary keys).
 
 A factory is DATA: the ordered list of dependencies it asks its provider for — each by
-`dp.Get(name)` or by `dp.InjectTo(&struct{ F T `dependency:"name"` })`, each required or optional
-(`?name` / ignored error) — and what it returns when all required ones arrived: a new object,
-an error, or `nil, nil`.  The Go harness interprets the same data as a closure.
+`dp.Get(name)` or by `dp.InjectTo(&struct{ F T `dependency:"…"` })` (one struct per edge), each
+required or optional (`?name` / ignored error) — and what it returns when all required ones
+arrived: a new object, an error, or `nil, nil`.  The Go harness interprets the same data as a closure.
+
+An object may be `nil` (`Set(name, nil)`, `SetDefault(name, nil)`, a nil value in an injector's map):
+`Get` hands it out without an error, `InjectTo` refuses to store it — for an optional field too.
+
+An injector is DATA as well: a map injector or a data-scope injector (tag name, map from key to
+value), the nil injector, or a multi injector (list of injectors).  `InjectTo` first fills the fields
+tagged with the provider's own tag name through `Get`, then runs the registered injectors in
+registration order; each of them reads ITS tag name on every field and overwrites the field.
 
 Go maps are total functions `Name → Option α` here.  `Block` ranges over the map
 `defaultInstances`; its loop body reads and writes the tables only at the key of the current
 iteration, so the (unspecified) iteration order cannot matter: `block` is written point-wise and
 `blockLoop` is the literal loop over any visiting order (`Props/C10.block_order_irrelevant` proves
-them equal for every order).
+them equal for every order).  `NewStaticProvider` builds `keys` by ranging over a map: `toStatic`
+takes the order as an argument and nothing but `Keys` depends on it.
 
-Not modelled: `AddInjectors` / the extra `injectors` run at the end of `InjectTo` (they read other
-struct tags and never touch the tables; the harness oracle covers their refusal after first use),
-`NewStaticProvider`, `Set(name, nil)`, empty dependency names and names starting with `?`.
+Outside the model: `InjectTo` targets whose field types do not accept the instance (reflect panics),
+nil `app.Injector` values, a nil `instances` map handed to `NewStaticProvider`, factories that panic.
 Core Lean only (this file is linked into the `m_di` driver).
 -/
 namespace Goat.DI
 
-abbrev Name := Nat
+/-- a dependency name, or the text of a struct tag: its characters -/
+structure Name where
+  chars : List Nat
+deriving DecidableEq, Repr
 
-/-- an object handed to `Set`/`SetDefault` by the caller, or one built by a factory -/
+/-- the character `?` -/
+def qmark : Nat := 63
+
+/-- numerals as names (used by examples): the one-character name with code `100 + n` — never `?` -/
+instance (n : Nat) : OfNat Name n := ⟨⟨[n + 100]⟩⟩
+
+/-- `""` -/
+def Name.empty : Name := ⟨[]⟩
+
+/-- `"?" + n` -/
+def Name.opt (n : Name) : Name := ⟨qmark :: n.chars⟩
+
+/-- The tag handling shared by `Provider.InjectTo`, `MapInjector.InjectTo` and the data-scope
+`Injector.InjectTo`: `if tag == "" { continue }; if strings.HasPrefix(tag, "?") { isRequired = false;
+tag = tag[1:] }`.  Result: the key to look up and whether the field is optional; `none` = skipped. -/
+def parseTag (raw : Name) : Option (Name × Bool) :=
+  match raw.chars with
+  | [] => none
+  | c :: cs => if c = qmark then some (⟨cs⟩, true) else some (raw, false)
+
+/-- an object handed to `Set`/`SetDefault`/an injector by the caller, one built by a factory, or `nil` -/
 inductive Inst where
   | given (v : Nat)
   | built (id : Nat)
+  | nil
 deriving DecidableEq, Repr
 
 /-- what a factory returns once its dependencies are there: `obj, nil` / `nil, err` / `nil, nil` -/
@@ -49,14 +88,41 @@ structure Factory where
   out  : Out
 deriving DecidableEq, Repr
 
-/-- a tagged struct field: `dependency:"name"` or `dependency:"?name"` -/
+/-- the name of a struct tag key (`dependency`, `config`, …) -/
+abbrev TagName := Nat
+
+/-- the tag name the provider was created with (`NewProvider(tagname)`) -/
+def ownTag : TagName := 0
+
+/-- a struct field: its tag, as the raw text per tag name (first entry wins, as `StructTag.Get`) -/
 structure Field where
-  name     : Name
-  optional : Bool
+  tags : List (TagName × Name)
 deriving DecidableEq, Repr
+
+/-- `structField.Tag.Get(tagname)`: `""` when the key is absent -/
+def Field.raw (f : Field) (t : TagName) : Name :=
+  match f.tags.lookup t with
+  | some r => r
+  | none => Name.empty
+
+/-- what the provider's own loop does with the field -/
+def Field.dep (f : Field) : Option (Name × Bool) := parseTag (f.raw ownTag)
+
+/-- the field `F T `dependency:"name"`` / `dependency:"?name"` -/
+def Field.own (n : Name) (optional : Bool) : Field := ⟨[(ownTag, if optional then n.opt else n)]⟩
+
+/-- an `app.Injector` -/
+inductive Injector where
+  | map (tag : TagName) (data : List (Name × Inst))    -- injector.NewMapInjector
+  | scope (tag : TagName) (data : List (Name × Inst))  -- datascope.NewInjector over a DataScope with these entries
+  | nop                                                -- injector.NewNilInjector
+  | multi (l : List Injector)                          -- injector.NewMultiInjector
+deriving Repr
 
 inductive Err where
   | cyclic | missing | nilInstance | failed | fuel
+  | nilDependency          -- `InjectTo`: "dependency instance can not be nil"
+  | injector (k : Nat)     -- the k-th registered injector returned an error
 deriving DecidableEq, Repr
 
 inductive Res where
@@ -83,6 +149,7 @@ def Tab.set {α : Type} (t : Tab α) (k : Name) (v : α) : Tab α := fun x => if
 def Tab.del {α : Type} (t : Tab α) (k : Name) : Tab α := fun x => if x = k then none else t x
 
 structure St where
+  injectors        : List Injector
   defaultFactories : Tab Factory
   factories        : Tab Factory
   defaultInstances : Tab Inst
@@ -97,7 +164,7 @@ structure St where
 
 /-- `NewProvider` -/
 def St.empty : St :=
-  { defaultFactories := Tab.empty, factories := Tab.empty, defaultInstances := Tab.empty,
+  { injectors := [], defaultFactories := Tab.empty, factories := Tab.empty, defaultInstances := Tab.empty,
     instances := Tab.empty, callstack := [], keys := [], blocked := false, autoclean := true,
     nextId := 0, log := [], exhausted := false }
 
@@ -111,7 +178,7 @@ def clean (s : St) (n : Name) : St :=
     { s with factories := s.factories.del n, defaultFactories := s.defaultFactories.del n }
   else s
 
-/-- `Set` (second component: accepted?) -/
+/-- `Set` (second component: accepted?); `v` may be `nil` -/
 def set (s : St) (n : Name) (v : Inst) : St × Bool :=
   if s.blocked then (s, false)
   else if (s.instances n).isSome then (s, false)
@@ -139,6 +206,11 @@ def addDefaultFactory (s : St) (n : Name) (f : Factory) : St × Bool :=
   else if (s.defaultFactories n).isSome then (s, false)
   else if (s.factories n).isSome then (s, true)
   else ({ s with defaultFactories := s.defaultFactories.set n f, keys := addKey s.keys n }, true)
+
+/-- `AddInjectors` -/
+def addInjectors (s : St) (l : List Injector) : St × Bool :=
+  if s.blocked then (s, false)
+  else ({ s with injectors := s.injectors ++ l }, true)
 
 /-- does the loop body of `Block` promote the default instance of `k`? -/
 def promotes (s : St) (k : Name) : Bool :=
@@ -176,34 +248,130 @@ def blockLoop (s : St) (order : List Name) : St :=
     let s1 := order.foldl blockBody s
     { s1 with defaultInstances := Tab.empty, blocked := true }
 
+/-! ### the extra injectors
+
+A struct being filled is the list of its field values (`none` = still the zero value), aligned with
+the list of its fields.  An injector's verdict depends on the tags only, never on the values. -/
+
+/-- a struct with `n` fields whose first fields hold `vals` -/
+def pad : Nat → List (Option Inst) → List (Option Inst)
+  | 0, _ => []
+  | n + 1, vals => vals.head?.join :: pad n vals.tail
+
+/-- `mi.data[key]` / `ds.data.Value(key)` -/
+def lookupData (data : List (Name × Inst)) (key : Name) : Option Inst :=
+  match data with
+  | [] => none
+  | (k, v) :: rest => if k = key then some v else lookupData rest key
+
+/-- the field loop of `MapInjector.InjectTo` (`isScope = false`) and of the data-scope
+`Injector.InjectTo` (`isScope = true`: a nil value is an unknown value).  Second component: it
+returned an error. -/
+def leafRun (isScope : Bool) (t : TagName) (data : List (Name × Inst)) :
+    List Field → List (Option Inst) → List (Option Inst) × Bool
+  | [], _ => ([], false)
+  | fld :: fs, vals =>
+    let v := vals.head?.join
+    let vs := vals.tail
+    match parseTag (fld.raw t) with
+    | none => let r := leafRun isScope t data fs vs; (v :: r.1, r.2)
+    | some (key, opt) =>
+      let unknown : List (Option Inst) × Bool :=
+        if opt then (let r := leafRun isScope t data fs vs; (v :: r.1, r.2))
+        else (v :: pad fs.length vs, true)
+      match lookupData data key with
+      | none => unknown
+      | some x =>
+        if x = .nil then (if isScope then unknown else (v :: pad fs.length vs, true))
+        else (let r := leafRun isScope t data fs vs; (some x :: r.1, r.2))
+
+mutual
+/-- `injector.InjectTo(obj)` -/
+def Injector.run : Injector → List Field → List (Option Inst) → List (Option Inst) × Bool
+  | .map t data, fs, vals => leafRun false t data fs vals
+  | .scope t data, fs, vals => leafRun true t data fs vals
+  | .nop, fs, vals => (pad fs.length vals, false)
+  | .multi l, fs, vals => runMulti l fs vals
+/-- the loop of `MultiInjector.InjectTo` -/
+def runMulti : List Injector → List Field → List (Option Inst) → List (Option Inst) × Bool
+  | [], fs, vals => (pad fs.length vals, false)
+  | i :: rest, fs, vals =>
+    match i.run fs vals with
+    | (v, true) => (v, true)
+    | (v, false) => runMulti rest fs v
+end
+
+/-- `for _, injector := range d.injectors { if err := injector.InjectTo(obj); err != nil { return err } }`;
+`k` is the index of the first injector of the list -/
+def runInjectors (k : Nat) : List Injector → List Field → List (Option Inst) → List (Option Inst) × Option Err
+  | [], fs, vals => (pad fs.length vals, none)
+  | i :: rest, fs, vals =>
+    match i.run fs vals with
+    | (v, true) => (v, some (.injector k))
+    | (v, false) => runInjectors (k + 1) rest fs v
+
+/-! ### `InjectTo` and `Get` -/
+
 /-- the field loop of `InjectTo`, over an abstract `Get`: values stored into the fields (one entry per
 field visited, `none` = left untouched) and the error that stopped it -/
 def injectFields (g : St → Name → St × Res) : St → List Field → St × List (Option Inst) × Option Err
   | s, [] => (s, [], none)
   | s, fld :: rest =>
-    match g s fld.name with
-    | (s1, .inst i) =>
-      let r := injectFields g s1 rest
-      (r.1, some i :: r.2.1, r.2.2)
-    | (s1, .err e) =>
-      if fld.optional then
-        let r := injectFields g s1 rest
-        (r.1, none :: r.2.1, r.2.2)
-      else (s1, [none], some e)
+    match fld.dep with
+    | none =>
+      let r := injectFields g s rest
+      (r.1, none :: r.2.1, r.2.2)
+    | some (n, opt) =>
+      match g s n with
+      | (s1, .inst i) =>
+        if i = .nil then (s1, [none], some .nilDependency)
+        else
+          let r := injectFields g s1 rest
+          (r.1, some i :: r.2.1, r.2.2)
+      | (s1, .err e) =>
+        if opt then
+          let r := injectFields g s1 rest
+          (r.1, none :: r.2.1, r.2.2)
+        else (s1, [none], some e)
+
+/-- the whole of `InjectTo` over an abstract `Get`: the provider's own loop, then (if that did not
+fail) the registered injectors.  Result: the struct afterwards (one value per field) and the error. -/
+def injectAll (g : St → Name → St × Res) (s : St) (fs : List Field) : St × List (Option Inst) × Option Err :=
+  let r := injectFields g s fs
+  match r.2.2 with
+  | some e => (r.1, pad fs.length r.2.1, some e)
+  | none =>
+    let q := runInjectors 0 r.1.injectors fs r.2.1
+    (r.1, q.1, q.2)
+
+/-- the tag text of an `InjectTo` edge of a factory -/
+def Dep.tagText (d : Dep) : Name := if d.optional then d.name.opt else d.name
+
+/-- the one-field struct of an `InjectTo` edge -/
+def Dep.field (d : Dep) : Field := ⟨[(ownTag, d.tagText)]⟩
+
+/-- what an edge asks the provider for: the name and whether a failure is tolerated (`none`: an
+`InjectTo` edge whose tag is empty — the field is skipped) -/
+def Dep.eff (d : Dep) : Option (Name × Bool) :=
+  if d.viaInject then parseTag d.tagText else some (d.name, d.optional)
+
+/-- one statement of a factory body -/
+def depStep (g : St → Name → St × Res) (s : St) (d : Dep) : St × Option Err :=
+  if d.viaInject then
+    let r := injectAll g s [d.field]
+    (r.1, r.2.2)
+  else
+    match g s d.name with
+    | (s1, .inst _) => (s1, none)
+    | (s1, .err e) => (s1, if d.optional then none else some e)
 
 /-- the body of a factory closure up to its return statement -/
 def runDeps (g : St → Name → St × Res) : St → List Dep → St × Option Err
   | s, [] => (s, none)
   | s, d :: rest =>
-    if d.viaInject then
-      let r := injectFields g s [⟨d.name, d.optional⟩]
-      match r.2.2 with
-      | none => runDeps g r.1 rest
-      | some e => (r.1, some e)
-    else
-      match g s d.name with
-      | (s1, .inst _) => runDeps g s1 rest
-      | (s1, .err e) => if d.optional then runDeps g s1 rest else (s1, some e)
+    match depStep g s d with
+    | (s1, none) => runDeps g s1 rest
+    | (s1, some e) => (s1, some e)
 
 /-- a factory closure -/
 def runFactory (g : St → Name → St × Res) (s : St) (f : Factory) : St × FRes :=
@@ -256,12 +424,37 @@ def fuelFor (s : St) : Nat := s.keys.length + 1 - s.callstack.length
 /-- `Get` as called from outside -/
 def Get (s : St) (n : Name) : St × Res := get (fuelFor s) s n
 
-/-- `InjectTo` as called from outside -/
-def InjectTo (s : St) (fields : List Field) : St × List (Option Inst) × Option Err :=
+/-- the provider's own field loop of an `InjectTo` called from outside (no extra injectors) -/
+def InjectOwn (s : St) (fields : List Field) : St × List (Option Inst) × Option Err :=
   injectFields (get (fuelFor s)) s fields
+
+/-- `InjectTo` as called from outside with a pointer to a fresh struct: the struct afterwards -/
+def InjectTo (s : St) (fields : List Field) : St × List (Option Inst) × Option Err :=
+  injectAll (get (fuelFor s)) s fields
 
 /-- `Keys` -/
 def Keys (s : St) : List Name := s.keys
+
+/-! ### `NewStaticProvider` -/
+
+/-- `a` if it is there, else `b` -/
+def orElse {α : Type} : Option α → Option α → Option α
+  | some a, _ => some a
+  | none, b => b
+
+/-- the factory map handed to `NewStaticProvider` when a provider is turned into a static one: every
+default factory, overridden by the explicit factories -/
+def mergedFactories (s : St) : Tab Factory := fun k => orElse (s.factories k) (s.defaultFactories k)
+
+/-- `NewStaticProvider(tagname, merged factories, instances, injectors)` built from a provider after
+`Block`.  `order` is the order in which the `range` over the factory map fills `keys`; the ghost
+fields carry over so that the two providers can be compared. -/
+def toStatic (s0 : St) (order : List Name) : St :=
+  let s := block s0
+  { injectors := s.injectors, defaultFactories := Tab.empty, factories := mergedFactories s,
+    defaultInstances := Tab.empty, instances := s.instances, callstack := [],
+    keys := order.filter fun k => (mergedFactories s k).isSome,
+    blocked := true, autoclean := false, nextId := s.nextId, log := s.log, exhausted := s.exhausted }
 
 /-! ### histories -/
 
@@ -273,7 +466,11 @@ inductive Op where
   | get (n : Name)
   | injectTo (fields : List Field)
   | keys
-deriving DecidableEq, Repr
+  | setNil (n : Name)               -- `Set(n, nil)`
+  | setDefaultNil (n : Name)        -- `SetDefault(n, nil)`
+  | addInjectors (l : List Injector)
+  | injectBad                       -- `InjectTo(x)` with `x` not a pointer to a struct (nil, a struct value, a nil pointer, `*int`)
+deriving Repr
 
 inductive Result where
   | ok
@@ -281,6 +478,7 @@ inductive Result where
   | got (r : Res)
   | injected (vals : List (Option Inst)) (e : Option Err)
   | keys (l : List Name)
+  | panic
 deriving DecidableEq, Repr
 
 def accepted (r : St × Bool) : St × Result := (r.1, if r.2 then .ok else .refused)
@@ -293,6 +491,10 @@ def step (s : St) : Op → St × Result
   | .get n => let r := Get s n; (r.1, .got r.2)
   | .injectTo fs => let r := InjectTo s fs; (r.1, .injected r.2.1 r.2.2)
   | .keys => (s, .keys (Keys s))
+  | .setNil n => accepted (set s n .nil)
+  | .setDefaultNil n => accepted (setDefault s n .nil)
+  | .addInjectors l => accepted (addInjectors s l)
+  | .injectBad => (s, .panic)   -- `reflect.ValueOf(obj).Elem()` / `.NumField()` panic before anything is touched
 
 /-- state after a history -/
 def exec (s : St) : List Op → St
@@ -323,14 +525,16 @@ def source (s : St) (n : Name) : Option Src :=
 
 /-! ### vocabulary of the property (used by `Props/C10.lean`) -/
 
+/-- the calls that define something and are refused once the provider is blocked -/
 def Op.isDef : Op → Bool
   | .set .. | .setDefault .. | .addFactory .. | .addDefaultFactory .. => true
+  | .setNil _ | .setDefaultNil _ | .addInjectors _ => true
   | _ => false
 
-/-- a request that reaches `Get` (an `InjectTo` without tagged fields never calls it) -/
+/-- a request that reaches `Get` (an `InjectTo` in which no field carries the provider's tag never calls it) -/
 def Op.isResolution : Op → Bool
   | .get _ => true
-  | .injectTo (_ :: _) => true
+  | .injectTo fs => fs.any fun f => f.dep.isSome
   | _ => false
 
 /-- names whose factory returned an instance that was stored, in order -/
@@ -348,19 +552,16 @@ def invocations (n : Name) : List Ev → Nat
 /-- what an explicit definition call says about `n` -/
 def Op.explicitOf (n : Name) : Op → Option Src
   | .set m v => if m = n then some (.inst (.given v)) else none
+  | .setNil m => if m = n then some (.inst .nil) else none
   | .addFactory m f => if m = n then some (.fac f) else none
   | _ => none
 
 /-- what a default definition call says about `n` -/
 def Op.defaultOf (n : Name) : Op → Option Src
   | .setDefault m v => if m = n then some (.inst (.given v)) else none
+  | .setDefaultNil m => if m = n then some (.inst .nil) else none
   | .addDefaultFactory m f => if m = n then some (.fac f) else none
   | _ => none
-
-/-- `a` if it is there, else `b` -/
-def orElse {α : Type} : Option α → Option α → Option α
-  | some a, _ => some a
-  | none, b => b
 
 /-- the first explicit definition of `n` in a list of calls -/
 def firstExplicit (n : Name) : List Op → Option Src
@@ -372,12 +573,22 @@ def firstDefault (n : Name) : List Op → Option Src
   | [] => none
   | o :: rest => orElse (o.defaultOf n) (firstDefault n rest)
 
+/-- An `InjectTo` edge of a factory does not fail by itself: the dependency it names is not defined
+as `nil` and the registered injectors accept the one-field struct.  (A `Get` edge has no such
+condition: the factory receives `nil` and goes on.) -/
+def Dep.injectOK (s : St) (d : Dep) : Prop :=
+  d.viaInject = true →
+    (∀ m o, d.eff = some (m, o) → s.instances m ≠ some .nil) ∧
+    (runInjectors 0 s.injectors [d.field] [none]).2 = none
+
 /-- `n` can be resolved from the definitions in force in `s`: it is an instance, or a factory that
-returns an object and whose required dependencies can all be resolved -/
+returns an object, whose `InjectTo` edges do not fail by themselves and whose required dependencies
+can all be resolved -/
 inductive Good (s : St) : Name → Prop where
   | inst {n : Name} {i : Inst} : source s n = some (.inst i) → Good s n
   | fac {n : Name} {f : Factory} : source s n = some (.fac f) → f.out = .ok →
-      (∀ d, d ∈ f.deps → d.optional = false → Good s d.name) → Good s n
+      (∀ d, d ∈ f.deps → d.injectOK s) →
+      (∀ d m, d ∈ f.deps → d.eff = some (m, false) → Good s m) → Good s n
 
 def Res.isInst : Res → Bool
   | .inst _ => true
